@@ -949,3 +949,68 @@ def run(ctx):
         "exhaustive": budget is None,
     }
     return "model_checking", cov, []
+
+
+# ----------------------------------------------------------------------------------------------
+# binding (D) to the code: the recorded system-call sequences must be behaviours of LayoutFS
+# ----------------------------------------------------------------------------------------------
+
+def dtrace_of(ab, r):
+    info = op_info(ab, r.op, {})
+    hdr = {"start": r.start, "kind": info["kind"], "t": info["optag"], "o": info["opobj"],
+           "gc": 1 if r.op.endswith("+gc") else 0}
+    evs = []
+    for e in r.events:
+        obj = ""
+        m = re.fullmatch(r"blobs/([a-z0-9]+)/([0-9a-f]{64,})", e["path"])
+        if m:
+            obj = ab.nm(m.group(1) + ":" + m.group(2))
+        evs.append({"ev": "dsys", "call": e["call"], "cls": e["cls"], "obj": obj})
+    evs.append({"ev": "dend"})
+    return {"id": r.sid, "header": hdr, "events": evs}
+
+
+def marker_mode(runs):
+    """How does this tree write oci-layout? 'rewrite': truncating open of an existing marker (code as
+    it was found); 'ifbad': never rewritten while it is valid (the repair of findings/C07-1.patch)."""
+    for r in runs:
+        for e in r.events:
+            if e["call"] == "openat_trunc" and e["cls"] == "marker":
+                return "rewrite"
+    return "ifbad"
+
+
+def validate_dtraces(ctx, dtraces, mode, label):
+    """-> (matched ids, drift: id -> index of the first event that (D) cannot match)"""
+    fn = ctx.path("traces", "%s.ndjson" % label)
+    starts = {}
+    n = 0
+    with open(fn, "w") as f:
+        for t in dtraces:
+            n += 1
+            starts[n] = t
+            hdr = {"ev": "reset", "trace": str(t["id"])}
+            hdr.update(t["header"])
+            f.write(json.dumps(hdr, sort_keys=True) + "\n")
+            for ev in t["events"]:
+                n += 1
+                f.write(json.dumps(ev, sort_keys=True) + "\n")
+    res = ctx.tlc("LayoutFSDTrace", "C07_dtrace_%s.cfg" % mode, workers=1, timeout=1500, record=False,
+                  env={"VERIF_TRACE": fn, "JAVA_TOOL_OPTIONS": "-Xss64m"})
+    out = res["output"]
+    done = set(re.findall(r'<<"DONE", "([^"]*)">>', out))
+    hw = {}
+    m = re.search(r'<<"HIGHWATER",(.*?)>>', out, re.S)
+    if m:
+        for a, b in re.findall(r"(\d+) :> (\d+)", m.group(1)):
+            hw[int(a)] = int(b)
+        if not hw:      # a single trace prints as a sequence
+            for i, b in enumerate(re.findall(r"\d+", m.group(1))):
+                hw[sorted(starts)[i]] = int(b)
+    drift = {}
+    for line, t in starts.items():
+        if str(t["id"]) not in done:
+            reached = hw.get(line, line + 1)
+            drift[t["id"]] = max(0, reached - line - 1)
+    ctx.cov["dtrace_states"] = ctx.cov.get("dtrace_states", 0) + res["distinct"]
+    return done, drift
